@@ -25,77 +25,80 @@ func init() {
 
 // bceJustified: function | kind | expression -> why the operation is in range.
 var bceJustified = map[string]string{
-	"ConfigureClient|index|c.TLSConfig.NextProtos[i]":                                      "client set-up code, not on a wire path; i ranges over the slice being indexed (the loop deletes while ranging — out of scope of the properties)",
-	"(*Conn).writeRequest|index|range-over-func":                                           "compiler-generated bounds check inside the inlined fasthttp header iterator (for k, v := range req.Header.All())",
-	"(*Conn).sendPending|slice|pb.body[:n]":                                                "n <= len(pb.body) by the min idiom and n >= 0 by the clamp (rule cli-chunk-bound decides both)",
-	"(*Conn).sendPending|slice|pb.body[n:]":                                                "same n as the line above",
-	"(*Conn).refillPending|slice|pb.buf[:defaultDataFrameSize]":                            "cap(pb.buf) >= defaultDataFrameSize is established by the allocation two lines above",
-	"(*Conn).refillPending|slice|buf[:n]":                                                  "n is the count returned by io.Reader.Read(buf), 0 <= n <= len(buf) by the io.Reader contract",
-	"(*Conn).writeData|slice|body[i : step+i]":                                             "i < len(body) by the loop condition and step+i <= len(body) by the tail idiom (rule cli-chunk-bound)",
-	"AcquireFrame|index|framePools[ftype]":                                                 "every caller passes a constant frame type or the kind readFrom range-checked (rule read-path-structure: type range before pool index)",
-	"ReleaseFrame|index|framePools[fr.Type()]":                                             "Type() of every implementation is a constant in 0..9 (rule frame-constants)",
-	"(*FrameHeader).parseValues|slice|header[:3]":                                          "header is the 9-octet result of Peek(DefaultFrameSize) (rule read-path-structure: peeks 9 octets)",
-	"(*FrameHeader).parseValues|index|header[3]":                                           "9-octet Peek result",
-	"(*FrameHeader).parseValues|index|header[4]":                                           "9-octet Peek result",
-	"(*FrameHeader).parseValues|slice|header[5:]":                                          "9-octet Peek result; BytesToUint32 needs 4",
-	"(*FrameHeader).parseValues|index|header[5:]":                                          "9-octet Peek result; BytesToUint32 needs 4",
-	"(*FrameHeader).parseHeader|slice|header[:3]":                                          "header is f.rawHeader[:], a [9]byte array",
-	"(*FrameHeader).parseHeader|index|header[3]":                                           "[9]byte array",
-	"(*FrameHeader).parseHeader|index|header[4]":                                           "[9]byte array",
-	"(*FrameHeader).parseHeader|slice|header[5:]":                                          "[9]byte array",
-	"(*FrameHeader).parseHeader|index|header[5:]":                                          "[9]byte array",
-	"(*FrameHeader).readFrom|slice|f.payload[:n]":                                          "f.payload was just resized to exactly n by http2utils.Resize (rule read-path-structure: buffer sized to length)",
-	"(*FrameHeader).readFrom|index|http2utils.Resize(f.payload, n)":                        "inlined Resize: b[:neededLen] after growing b to at least neededLen",
-	"(*FrameHeader).readFrom|slice|http2utils.Resize(f.payload, n)":                        "inlined Resize: b[:neededLen] after growing b to at least neededLen",
-	"(*GoAway).Deserialize|index|fr.payload[4:]":                                           "len(fr.payload) >= 8 on this branch (rule fixed-size-exact: GOAWAY at least 8)",
-	"(*GoAway).Deserialize|slice|fr.payload[4:]":                                           "len(fr.payload) >= 8 on this branch",
-	"(*GoAway).Deserialize|slice|fr.payload[8:]":                                           "len(fr.payload) >= 8 on this branch",
-	"(*GoAway).Serialize|slice|fr.payload[:4]":                                             "fr.payload was just built by appending 4 octets to payload[:0]",
-	"(*Headers).Serialize|slice|h.rawHeaders[5:]":                                          "5 octets were appended on the line above",
-	"(*Headers).Serialize|slice|h.rawHeaders[0:4]":                                         "5 octets were appended two lines above",
-	"(*Headers).Serialize|index|h.rawHeaders[4]":                                           "5 octets were appended three lines above",
-	"(*HPACK).shrink|index|hp.dynamic[i]":                                                  "i < n <= len(hp.dynamic) by the loop that computed n",
-	"(*HPACK).shrink|slice|hp.dynamic[n:]":                                                 "n <= len(hp.dynamic) by the loop that computed n",
-	"appendInt|index|dst[len(dst)-1]":                                                      "len(dst) >= 1: an empty dst gets one octet appended first; later octets are appended before the index",
-	"appendString|index|dst[nn]":                                                           "nn = len(dst)-1 tested >= 0, or incremented after an append; encoder side, not peer data",
-	"(*HPACK).AppendHeader|index|appendInt(append(dst, 0x20), 5, uint64(hp.maxTableSize))": "inlined appendInt on a slice that just had an octet appended",
-	"(*HPACK).AppendHeader|index|appendInt(dst, bits, index)":                              "inlined appendInt; it appends when dst is empty",
-	"HuffmanDecode|index|root.sub[idx]":                                                    "idx is a byte (0..255) and every non-leaf node's sub has 256 entries (make([]*huffmanNode, 256) at both creation sites); a leaf is never indexed because the loop resets root at a leaf",
-	"(*huffmanNode).add|index|node.sub[i]":                                                 "init-time table construction from the constant code tables; i is a uint8 and sub has 256 entries",
-	"(*huffmanNode).add|index|node.sub[i] = &huffmanNode{...}":                             "init-time table construction",
-	"(*Priority).Deserialize|index|fr.payload[4]":                                          "len(fr.payload) >= 5 on this branch (rule fixed-size-exact)",
-	"(*serverConn).handleStreams|index|closedRing[closedOldest]":                           "closedOldest is kept in 0..closedStrmsCap-1 by the modulo and the ring has closedStrmsCap entries on this branch (len == cap tested by the else)",
-	"(*serverConn).handleStreams|index|markClosed(fr.Stream(), true)":                      "markClosed inlined at the refusal site: closedOldest is kept in 0..closedStrmsCap-1 by the modulo and the ring has closedStrmsCap entries on this branch (len == cap tested by the else)",
-	"(*serverConn).handleStreams|index|strms[0]":                                           "deleteUntil counts streams of strms, and each iteration removes exactly strms[0] via closeStream -> strms.Del",
-	"(*serverConn).refillPending|slice|strm.bodyBuf[:maxDataFrameSize]":                    "cap(strm.bodyBuf) >= maxDataFrameSize is established two lines above",
-	"(*serverConn).refillPending|slice|buf[:n]":                                            "n is the count returned by io.Reader.Read(buf)",
-	"fasthttpResponseHeaders|index|statusBytes(res.Header.StatusCode())":                   "inlined statusBytes clamps code to 100..999 before indexing the [1000] table",
-	"fasthttpResponseHeaders|index|range-over-func":                                        "compiler-generated check inside the inlined fasthttp header iterator",
-	"(*Settings).Read|slice|d[last:i]":                                                     "last = i-6 >= 0 and i <= n = len(d) by the loop condition",
-	"(*Settings).Read|index|b[0]":                                                          "b = d[last:i] has exactly 6 octets",
-	"(*Settings).Read|index|b[1]":                                                          "6-octet entry",
-	"(*Settings).Read|index|b[2]":                                                          "6-octet entry",
-	"(*Settings).Read|index|b[3]":                                                          "6-octet entry",
-	"(*Settings).Read|index|b[4]":                                                          "6-octet entry",
-	"(*Settings).Read|index|b[5]":                                                          "6-octet entry",
-	"statusBytes|index|statusCodes[code]":                                                  "code is clamped to 100..999 before indexing the [1000] table",
-	"http2utils.AddPadding|slice|b[:1]":                                                    "b was resized to nn+n with n >= 9",
-	"http2utils.AddPadding|slice|b[nn+1:]":                                                 "b has nn+n+1 octets after the prepend, n >= 9",
-	"http2utils.AddPadding|index|b[0]":                                                     "non-empty after the prepend",
-	"http2utils.Resize|slice|b[:neededLen]":                                                "b was grown to at least neededLen on the line above",
-	"http2utils.CutPadding|slice|payload[1 : length-pad]":                                  "1 <= length-pad <= length <= len(payload) by the two rejecting guards above (rule padding-strip: CutPadding guard, CutPadding length bound)",
-	"http2utils.CutPadding|index|payload[0]":                                               "len(payload) == 0 is rejected first",
-	"http2utils.BytesToUint24|index|b[2]":                                                  "explicit bounds hint `_ = b[2]`; every caller passes at least 3 octets (header[:3])",
-	"http2utils.BytesToUint32|index|b[3]":                                                  "explicit bounds hint `_ = b[3]`; callers: parseValues header[5:] (4 octets of 9), and Deserialize methods behind their length guards (rule fixed-size-exact)",
-	"http2utils.Uint24ToBytes|index|b[2]":                                                  "explicit bounds hint; caller passes header[:3]",
-	"http2utils.Uint32ToBytes|index|b[3]":                                                  "explicit bounds hint; callers pass header[5:] of a [9]byte and rawHeaders[0:4]",
-	"http2utils.EqualsFold|index|b[i]":                                                     "len(a) == len(b) tested first; not used on a wire path",
-	"(*FrameHeader).parseHeader|index|http2utils.Uint32ToBytes(header[5:], f.stream)":      "inlined helper on header[5:] of the [9]byte rawHeader: 4 octets",
-	"(*FrameHeader).parseValues|index|http2utils.BytesToUint32(header[5:])":                "inlined helper on header[5:] of the 9-octet Peek result: 4 octets",
-	"(*GoAway).Deserialize|index|http2utils.BytesToUint32(fr.payload[4:])":                 "len(fr.payload) >= 8 on this branch (rule fixed-size-exact: GOAWAY at least 8)",
-	"appendString|index|appendInt(dst, 7, n)":                                              "inlined appendInt: it appends one octet first when dst is empty",
-	"http2utils.AddPadding|slice|Resize(b, nn+n)":                                          "inlined Resize: b grown to at least nn+n before b[:nn+n]; encoder side",
-	"http2utils.AssertEqual|slice|buf.String()":                                            "test helper, inlined bytes.Buffer.String; not library code on any wire path",
+	"ConfigureClient|index|c.TLSConfig.NextProtos[i]":                                        "client set-up code, not on a wire path; i ranges over the slice being indexed (the loop deletes while ranging — out of scope of the properties)",
+	"(*Conn).writeRequest|index|range-over-func":                                             "compiler-generated bounds check inside the inlined fasthttp header iterator (for k, v := range req.Header.All())",
+	"(*Conn).sendPending|slice|pb.body[:n]":                                                  "n <= len(pb.body) by the min idiom and n >= 0 by the clamp (rule cli-chunk-bound decides both)",
+	"(*Conn).sendPending|slice|pb.body[n:]":                                                  "same n as the line above",
+	"(*Conn).refillPending|slice|pb.buf[:defaultDataFrameSize]":                              "cap(pb.buf) >= defaultDataFrameSize is established by the allocation two lines above",
+	"(*Conn).refillPending|slice|buf[:n]":                                                    "n is the count returned by io.Reader.Read(buf), 0 <= n <= len(buf) by the io.Reader contract",
+	"(*Conn).writeData|slice|body[i : step+i]":                                               "i < len(body) by the loop condition and step+i <= len(body) by the tail idiom (rule cli-chunk-bound)",
+	"AcquireFrame|index|framePools[ftype]":                                                   "every caller passes a constant frame type or the kind readFrom range-checked (rule read-path-structure: type range before pool index)",
+	"ReleaseFrame|index|framePools[fr.Type()]":                                               "Type() of every implementation is a constant in 0..9 (rule frame-constants)",
+	"(*FrameHeader).parseValues|slice|header[:3]":                                            "header is the 9-octet result of Peek(DefaultFrameSize) (rule read-path-structure: peeks 9 octets)",
+	"(*FrameHeader).parseValues|index|header[3]":                                             "9-octet Peek result",
+	"(*FrameHeader).parseValues|index|header[4]":                                             "9-octet Peek result",
+	"(*FrameHeader).parseValues|slice|header[5:]":                                            "9-octet Peek result; BytesToUint32 needs 4",
+	"(*FrameHeader).parseValues|index|header[5:]":                                            "9-octet Peek result; BytesToUint32 needs 4",
+	"(*FrameHeader).parseHeader|slice|header[:3]":                                            "header is f.rawHeader[:], a [9]byte array",
+	"(*FrameHeader).parseHeader|index|header[3]":                                             "[9]byte array",
+	"(*FrameHeader).parseHeader|index|header[4]":                                             "[9]byte array",
+	"(*FrameHeader).parseHeader|slice|header[5:]":                                            "[9]byte array",
+	"(*FrameHeader).parseHeader|index|header[5:]":                                            "[9]byte array",
+	"(*FrameHeader).readFrom|slice|f.payload[:n]":                                            "f.payload was just resized to exactly n by http2utils.Resize (rule read-path-structure: buffer sized to length)",
+	"(*FrameHeader).readFrom|index|http2utils.Resize(f.payload, n)":                          "inlined Resize: b[:neededLen] after growing b to at least neededLen",
+	"(*FrameHeader).readFrom|slice|http2utils.Resize(f.payload, n)":                          "inlined Resize: b[:neededLen] after growing b to at least neededLen",
+	"(*GoAway).Deserialize|index|fr.payload[4:]":                                             "len(fr.payload) >= 8 on this branch (rule fixed-size-exact: GOAWAY at least 8)",
+	"(*GoAway).Deserialize|slice|fr.payload[4:]":                                             "len(fr.payload) >= 8 on this branch",
+	"(*GoAway).Deserialize|slice|fr.payload[8:]":                                             "len(fr.payload) >= 8 on this branch",
+	"(*GoAway).Serialize|slice|fr.payload[:4]":                                               "fr.payload was just built by appending 4 octets to payload[:0]",
+	"(*Headers).Serialize|slice|h.rawHeaders[5:]":                                            "5 octets were appended on the line above",
+	"(*Headers).Serialize|slice|h.rawHeaders[0:4]":                                           "5 octets were appended two lines above",
+	"(*Headers).Serialize|index|h.rawHeaders[4]":                                             "5 octets were appended three lines above",
+	"(*HPACK).shrink|index|hp.dynamic[i]":                                                    "i < n <= len(hp.dynamic) by the loop that computed n",
+	"(*HPACK).shrink|slice|hp.dynamic[n:]":                                                   "n <= len(hp.dynamic) by the loop that computed n",
+	"appendInt|index|dst[len(dst)-1]":                                                        "len(dst) >= 1: an empty dst gets one octet appended first; later octets are appended before the index",
+	"appendString|index|dst[nn]":                                                             "nn = len(dst)-1 tested >= 0, or incremented after an append; encoder side, not peer data",
+	"(*HPACK).AppendHeader|index|appendInt(append(dst, 0x20), 5, uint64(hp.maxTableSize))":   "inlined appendInt on a slice that just had an octet appended",
+	"(*HPACK).AppendHeader|index|appendInt(dst, bits, index)":                                "inlined appendInt; it appends when dst is empty",
+	"HuffmanDecode|index|root.sub[idx]":                                                      "idx is a byte (0..255) and every non-leaf node's sub has 256 entries (make([]*huffmanNode, 256) at both creation sites); a leaf is never indexed because the loop resets root at a leaf",
+	"(*huffmanNode).add|index|node.sub[i]":                                                   "init-time table construction from the constant code tables; i is a uint8 and sub has 256 entries",
+	"(*huffmanNode).add|index|node.sub[i] = &huffmanNode{...}":                               "init-time table construction",
+	"(*Priority).Deserialize|index|fr.payload[0]":                                            "len(fr.payload) == 5 on this branch (rule fixed-size-exact)",
+	"(*Headers).Serialize|index|h.rawHeaders[0]":                                             "five octets were appended to rawHeaders two statements earlier, under the same condition",
+	"(*HPACK).AppendHeader|index|appendInt(append(dst, 0x20), 5, uint64(hp.pendingLowSize))": "inlined appendInt on a slice that just had an octet appended",
+	"(*Priority).Deserialize|index|fr.payload[4]":                                            "len(fr.payload) >= 5 on this branch (rule fixed-size-exact)",
+	"(*serverConn).handleStreams|index|closedRing[closedOldest]":                             "closedOldest is kept in 0..closedStrmsCap-1 by the modulo and the ring has closedStrmsCap entries on this branch (len == cap tested by the else)",
+	"(*serverConn).handleStreams|index|markClosed(fr.Stream(), true)":                        "markClosed inlined at the refusal site: closedOldest is kept in 0..closedStrmsCap-1 by the modulo and the ring has closedStrmsCap entries on this branch (len == cap tested by the else)",
+	"(*serverConn).handleStreams|index|strms[0]":                                             "deleteUntil counts streams of strms, and each iteration removes exactly strms[0] via closeStream -> strms.Del",
+	"(*serverConn).refillPending|slice|strm.bodyBuf[:maxDataFrameSize]":                      "cap(strm.bodyBuf) >= maxDataFrameSize is established two lines above",
+	"(*serverConn).refillPending|slice|buf[:n]":                                              "n is the count returned by io.Reader.Read(buf)",
+	"fasthttpResponseHeaders|index|statusBytes(res.Header.StatusCode())":                     "inlined statusBytes clamps code to 100..999 before indexing the [1000] table",
+	"fasthttpResponseHeaders|index|range-over-func":                                          "compiler-generated check inside the inlined fasthttp header iterator",
+	"(*Settings).Read|slice|d[last:i]":                                                       "last = i-6 >= 0 and i <= n = len(d) by the loop condition",
+	"(*Settings).Read|index|b[0]":                                                            "b = d[last:i] has exactly 6 octets",
+	"(*Settings).Read|index|b[1]":                                                            "6-octet entry",
+	"(*Settings).Read|index|b[2]":                                                            "6-octet entry",
+	"(*Settings).Read|index|b[3]":                                                            "6-octet entry",
+	"(*Settings).Read|index|b[4]":                                                            "6-octet entry",
+	"(*Settings).Read|index|b[5]":                                                            "6-octet entry",
+	"statusBytes|index|statusCodes[code]":                                                    "code is clamped to 100..999 before indexing the [1000] table",
+	"http2utils.AddPadding|slice|b[:1]":                                                      "b was resized to nn+n with n >= 9",
+	"http2utils.AddPadding|slice|b[nn+1:]":                                                   "b has nn+n+1 octets after the prepend, n >= 9",
+	"http2utils.AddPadding|index|b[0]":                                                       "non-empty after the prepend",
+	"http2utils.Resize|slice|b[:neededLen]":                                                  "b was grown to at least neededLen on the line above",
+	"http2utils.CutPadding|slice|payload[1 : length-pad]":                                    "1 <= length-pad <= length <= len(payload) by the two rejecting guards above (rule padding-strip: CutPadding guard, CutPadding length bound)",
+	"http2utils.CutPadding|index|payload[0]":                                                 "len(payload) == 0 is rejected first",
+	"http2utils.BytesToUint24|index|b[2]":                                                    "explicit bounds hint `_ = b[2]`; every caller passes at least 3 octets (header[:3])",
+	"http2utils.BytesToUint32|index|b[3]":                                                    "explicit bounds hint `_ = b[3]`; callers: parseValues header[5:] (4 octets of 9), and Deserialize methods behind their length guards (rule fixed-size-exact)",
+	"http2utils.Uint24ToBytes|index|b[2]":                                                    "explicit bounds hint; caller passes header[:3]",
+	"http2utils.Uint32ToBytes|index|b[3]":                                                    "explicit bounds hint; callers pass header[5:] of a [9]byte and rawHeaders[0:4]",
+	"http2utils.EqualsFold|index|b[i]":                                                       "len(a) == len(b) tested first; not used on a wire path",
+	"(*FrameHeader).parseHeader|index|http2utils.Uint32ToBytes(header[5:], f.stream)":        "inlined helper on header[5:] of the [9]byte rawHeader: 4 octets",
+	"(*FrameHeader).parseValues|index|http2utils.BytesToUint32(header[5:])":                  "inlined helper on header[5:] of the 9-octet Peek result: 4 octets",
+	"(*GoAway).Deserialize|index|http2utils.BytesToUint32(fr.payload[4:])":                   "len(fr.payload) >= 8 on this branch (rule fixed-size-exact: GOAWAY at least 8)",
+	"appendString|index|appendInt(dst, 7, n)":                                                "inlined appendInt: it appends one octet first when dst is empty",
+	"http2utils.AddPadding|slice|Resize(b, nn+n)":                                            "inlined Resize: b grown to at least nn+n before b[:nn+n]; encoder side",
+	"http2utils.AssertEqual|slice|buf.String()":                                              "test helper, inlined bytes.Buffer.String; not library code on any wire path",
 }
 
 var bceLine = regexp.MustCompile(`^(.*\.go):(\d+):(\d+): Found (IsInBounds|IsSliceInBounds)`)
